@@ -396,8 +396,23 @@ func TestVerifC06Sched(t *testing.T) {
 		{"swap-cross-effects", 1, 2, c02SwapBody(2, 1, false)},
 		{"access-allow-2peers", 2, 3, c06AccessBody("allow=ip:10.0.0.0/8", []string{"10.1.1.1:1", "1.2.3.4:2"}, []bool{false, true}, 2)},
 		{"access-deny-3peers", 1, 2, c06AccessBody("deny=ip:10.0.0.0/8", []string{"10.1.1.1:1", "1.2.3.4:2", "10.2.2.2:3"}, []bool{true, false, true}, 1)},
+		{"access-deny-3items-3peers", 1, 2, c06AccessBody("deny=ip:10.0.0.0/8,ip:192.168.0.0/16,ip:172.16.0.0/12", []string{"192.168.1.1:1", "172.16.5.5:2", "1.2.3.4:3"}, []bool{true, true, false}, 2)},
 	}
 	schedRun(L, scs, 240, 2400)
+	L.End(true)
+}
+
+// C12 under concurrency: the access decision of a request is taken on rules that other requests are
+// evaluating at the same moment (fresh targets after a table replacement, lists with several items).
+func TestVerifC12Sched(t *testing.T) {
+	L := ev.Begin("C12", "c12-sched", "model_checking",
+		"controlled scheduler over the real Target.AccessDeniedHTTP on a freshly built table: 2-3 requests from peers inside / outside the rule, allow and deny lists with 1 and 3 items, each request checked once or twice; every interleaving up to the preemption bound; oracle: every decision is the one the rule prescribes for that peer")
+	schedRun(L, []schedScenario{
+		{"access-allow-2peers", 2, 3, c06AccessBody("allow=ip:10.0.0.0/8", []string{"10.1.1.1:1", "1.2.3.4:2"}, []bool{false, true}, 2)},
+		{"access-deny-3peers", 1, 2, c06AccessBody("deny=ip:10.0.0.0/8", []string{"10.1.1.1:1", "1.2.3.4:2", "10.2.2.2:3"}, []bool{true, false, true}, 1)},
+		{"access-deny-3items-3peers", 1, 2, c06AccessBody("deny=ip:10.0.0.0/8,ip:192.168.0.0/16,ip:172.16.0.0/12", []string{"192.168.1.1:1", "172.16.5.5:2", "1.2.3.4:3"}, []bool{true, true, false}, 2)},
+		{"access-allow-3items-2peers", 2, 3, c06AccessBody("allow=ip:10.0.0.0/8,ip:192.168.0.0/16,ip:172.16.0.0/12", []string{"172.16.5.5:1", "192.168.1.1:2"}, []bool{false, false}, 2)},
+	}, 120, 1500)
 	L.End(true)
 }
 
